@@ -13,7 +13,9 @@ PROP = dict(
                     "times through one mpt::config_parser (open, read, reset or new open, read again; fresh or used result node), every "
                     "pass compared the same way; before 2/5 of the reads set_format() calls with an unknown style character (must be refused "
                     "and change nothing), in 1/3 of the cases an accepted format change on the used parser followed by a tree in the "
-                    "new style.  Exploration, not proof."),
+                    "new style; before 1/3 of the reads an open() of a missing file / empty name / directory (refused: nothing changes, "
+                    "reset()+read() gives the same tree; accepted: switched, file opened again), switches between two renderings of the "
+                    "tree, close and re-open; descriptor count of the process equal before and after every case.  Exploration, not proof."),
         level_note=("trusts the renderer and comparison in harness/c09_tree.c, i.e. its reading of the doc comments of mpt_parse_format_pre/_enc/_sep, "
                     "mpt_parse_format and of examples/core/*.txt, *.lay, mpt.conf; gcc ASan/UBSan"),
         legs=[dict(name="c09_readback", memcheck=600, src=["c09_readback.c", "c09_tree.c"], libs=["mptcore"], batch=512,
@@ -35,7 +37,11 @@ PROP = dict(
                            "tree:depth>=3": 4000, "tree:with-value-250..260": 8000, "tree:with-value-65530..65540": 1000,
                            "tree:last-top-level-element-is-option": 12000, "flags:config_parser-defaults": 3000,
                            "monitor:trees-equal:read-after-refused-set_format": 35000, "monitor:trees-equal:after-format-change": 20000,
-                           "state:format-changed-on-used-parser": 8000, "config_parser::set_format": 90000})],
+                           "state:format-changed-on-used-parser": 8000, "config_parser::set_format": 90000,
+                           "open:refused": 18000, "monitor:trees-equal:read-after-refused-open": 18000,
+                           "monitor:trees-equal:reset+read-after-refused-open": 9000, "open:switched-to-other-file": 14000,
+                           "monitor:trees-equal:other-file": 20000, "open:closed": 4000, "open:unreadable-target-accepted": 10000,
+                           "monitor:descriptor-count-compared": 40000})],
         rule=("case = (format string, section/option name flag sets, generated tree of sections, options and anonymous data); the tree is "
               "rendered canonically, compactly and with random decoration and each text is parsed into an empty root; non-trivial = "
               "the tree has at least 3 nodes and (except for the flat separated style) at least one section; distinct = 64-bit hash "
